@@ -1,20 +1,112 @@
-"""C20 — relative and resolved paths are mutually inverse."""
+"""C20 — relative and resolved paths are mutually inverse and land on the intended file."""
+import json
+import os
+import re
+import shutil
+import subprocess
+import tempfile
+
 import vlib
+import gen_c20
+
+SCHEMA = "type Query { me: User }\ntype User { id: ID! name: String }\n"
+FRAG = "fragment UF on User { id name }\n"
 
 
 def classify(case, kind):
     return set()
 
 
+def gen(ctx):
+    pairs = gen_c20.generate(vlib.REPO, vlib.COQ)
+    ctx.coverage["ts_to_js_table"] = pairs
+
+
+# (schema dir, operation dir, fragment dir, schema output, resolvers output): outputs above / below / beside inputs
+LAYOUTS = [
+    ("schema", "ops", "ops/frag", "generated/schema.d.ts", "generated/resolvers.d.ts"),
+    ("src/schema", "src/app/deep/er", "src/shared", "schema.d.ts", "src/r.d.ts"),
+    (".", ".", "f", "out/a/b/c/schema.d.ts", "out/resolvers.d.ts"),
+    ("a/b/c", "a/b/c/ops", "a", "a/b/schema.d.mts", "a/b/c/d/e/res.d.cts"),
+    ("graphql/schema", "graphql/schema/ops", "graphql", "graphql/schema/schema.ts", "graphql/resolvers.tsx"),
+    ("src/graphql", "generated/graphql/ops", "src/graphql/f", "generated/graphql/schema.d.ts", "src/graphql/resolvers.d.ts"),
+]
+
+
+def e2e(ctx, outdir):
+    """runs the real CLI on projects whose outputs sit above/below/beside the inputs and records the import
+    specifiers and source-map `sources` it wrote, as further cases for the model and the spec-side predicate"""
+    ok, cli = vlib.cli_build(ctx)
+    if not ok:
+        vlib.violation(ctx, "nitrogql-cli does not build from the working tree", {"stage": "cli-build"}, found_input=False)
+        return
+    terms, descrs = [], []
+    base = tempfile.mkdtemp(prefix="verif-c20-")
+    try:
+        for li, (sdir, odir, fdir, sout, rout) in enumerate(LAYOUTS):
+            root = os.path.join(base, "p%d" % li)
+            for d in (sdir, odir, fdir):
+                os.makedirs(os.path.join(root, d), exist_ok=True)
+            open(os.path.join(root, sdir, "schema.graphql"), "w").write(SCHEMA)
+            open(os.path.join(root, fdir, "frag.graphql"), "w").write(FRAG)
+            rel_frag = os.path.relpath(os.path.join(root, fdir, "frag.graphql"), os.path.join(root, odir))
+            if not rel_frag.startswith("."):
+                rel_frag = "./" + rel_frag
+            open(os.path.join(root, odir, "op.graphql"), "w").write(
+                '#import UF from "%s"\nquery Q { me { ...UF } }\n' % rel_frag)
+            cfg = ("schema: ./%s/schema.graphql\ndocuments:\n  - ./%s/op.graphql\n  - ./%s/frag.graphql\n"
+                   "extensions:\n  nitrogql:\n    generate:\n      schemaOutput: ./%s\n      resolversOutput: ./%s\n"
+                   % (sdir, odir, fdir, sout, rout)).replace("./.", ".").replace("//", "/")
+            open(os.path.join(root, "graphql.config.yaml"), "w").write(cfg)
+            p = subprocess.run([cli, "--output-format", "json", "generate"], cwd=root, stdout=subprocess.PIPE,
+                               stderr=subprocess.PIPE, text=True, timeout=120)
+            if p.returncode != 0:
+                descrs.append({"kind": "e2e-cli-failed", "layout": li, "stdout": p.stdout[-500:], "stderr": p.stderr[-500:]})
+                terms.append("CSpec %s %s %s" % (vlib.coq_str("/cli/failed"), vlib.coq_str("/x"), vlib.coq_str("")))
+                continue
+            files = [f["path"] for f in json.loads(p.stdout).get("generate", {}).get("files", [])]
+            schema_out = os.path.normpath(os.path.join(root, sout))
+            inputs = [os.path.join(root, sdir, "schema.graphql"), os.path.join(root, odir, "op.graphql"),
+                      os.path.join(root, fdir, "frag.graphql")]
+            inputs = [os.path.normpath(x) for x in inputs]
+            for f in files:
+                if f.endswith(".map"):
+                    m = json.load(open(f))
+                    for src in m.get("sources", []):
+                        target = os.path.normpath(os.path.join(os.path.dirname(f), src))
+                        meant = target if target in inputs else None
+                        if meant is None:
+                            # the entry lands on no input file: a property failure on its own
+                            meant = inputs[0]
+                        terms.append("CSource %s %s %s" % (vlib.coq_str(f), vlib.coq_str(meant), vlib.coq_str(src)))
+                        descrs.append({"kind": "e2e-source", "layout": li, "map": f, "meant": meant, "source": src})
+                elif f.endswith(".ts") and os.path.normpath(f) != schema_out:
+                    text = open(f).read()
+                    mm = re.search(r'import type \* as \w+ from "([^"]+)"', text)
+                    if mm:
+                        terms.append("CSpec %s %s %s" % (vlib.coq_str(f), vlib.coq_str(schema_out), vlib.coq_str(mm.group(1))))
+                        descrs.append({"kind": "e2e-specifier", "layout": li, "decl": f, "schema_output": schema_out,
+                                       "specifier": mm.group(1)})
+    finally:
+        shutil.rmtree(base, ignore_errors=True)
+    vlib.append_shard(outdir, "From V Require Import Base.Util C20.Model C20.Corr.", "case", "agree", "holds", terms, descrs)
+    ctx.coverage["end_to_end_cli_cases"] = len(terms)
+    ctx.coverage.setdefault("samples_end_to_end", descrs[:3])
+
+
 def run(ctx):
     return vlib.standard_check(
         ctx,
-        targets=["C20/Properties.vo", "C20/Corr.vo"],
+        gen=gen,
+        targets=["C20/Properties.vo", "C20/Corr.vo", "C20/SpecifierProofs.vo"],
         pinned="C20/Pinned.v",
         binname="c20",
         classify=classify,
+        post_harness=e2e,
         extra_trusted=[
             "std::path on Unix (Path::components, PathBuf::push/pop) is modelled on component lists (C20/Model.v: components, push1, pop)",
+            "tools/gen_c20.py: regex translator of the TS_TO_JS table and a shape check of path_to_ts (fails closed)",
+            "tools/checks/c20.py: project layouts, reading of import specifiers and source-map `sources` from the real CLI's outputs",
         ],
         assumptions=[
             "paths are Unix paths; 'file A' means the last component of A is a name; A and B are absolute and never climb above the root (abs_ok, is_file are part of the theorem statements)",
